@@ -309,6 +309,8 @@ def run(res: Results, idx: Index, tier: str) -> None:
         for inst in sub.instances:
             if inst.rule in ("R-C08c", "R-C08d"):
                 res.add("R-C05d", inst.status, inst.site, f"{inst.rule}::{inst.key}", f"[C08 {inst.rule}] {inst.detail}", inst.func)
+    rule_f(res, idx)
+    rule_g(res, idx)
 
 
 def _descend(body: List[ast.stmt]) -> List[ast.AST]:
@@ -329,6 +331,29 @@ def rule_collision_universe(res: Results, idx: Index) -> None:
                     g = idx.resolve_func(idx.module(UI), call_name(c) or "", scope=f)
                     if g is not None and g.module.rel == UI and g.node is not f.node and any(a.arg == "graph" for a in g.node.args.args):
                         providers.append(g)
+    direct = [c for nm in du.closure({"collisions"}) | {"collisions"} for d in du.defs.get(nm, []) if d.value is not None for c in ast.walk(d.value)
+              if isinstance(c, ast.Call) and (call_name(c) or "").endswith("create_value_mapping")]
+    if not direct and not providers:
+        # the universe may be spelled out in place: the loop that fills the occupied-name set
+        clo = du.closure({"collisions"}) | {"collisions"}
+        for lp in walk_no_nested(f.node):
+            if isinstance(lp, ast.For) and any(isinstance(c, ast.Call) and isinstance(c.func, ast.Attribute) and c.func.attr == "add" and isinstance(c.func.value, ast.Name) and c.func.value.id in clo for c in ast.walk(lp)):
+                attrs = {x.attr for x in ast.walk(lp.iter) if isinstance(x, ast.Attribute)}
+                walks = any(isinstance(x, ast.comprehension) and isinstance(x.iter, ast.Name) and x.iter.id == "graph" for x in ast.walk(lp.iter)) or "all_nodes" in attrs
+                if attrs & {"inputs", "outputs", "initializers"} and not walks:
+                    res.violation("R-C05c", f"{UI}:{lp.lineno}", key, f"the collision check enumerates only {sorted(attrs & {'inputs', 'outputs', 'initializers'})} of the graph: a custom name equal to an intermediate value's name "
+                                  "defines that name twice", f.qualname)
+                    return
+    if direct and not providers:
+        c = direct[0]
+        kw = {k.arg: k.value for k in c.keywords}
+        top_only = "include_subgraphs" in kw and isinstance(kw["include_subgraphs"], ast.Constant) and kw["include_subgraphs"].value is False
+        if top_only:
+            res.violation("R-C05c", f"{UI}:{c.lineno}", key, "the collision check enumerates the top graph only (`include_subgraphs=False`): a custom name equal to a value name inside a Loop / If body is accepted and the body then "
+                          "shadows or redefines it (checker / ORT reject the model for input names)", f.qualname)
+        else:
+            res.ok("R-C05c", f"{UI}:{c.lineno}", key, "occupied names come from a mapping over every named value of the graph and its nested graphs", f.qualname)
+        return
     if not providers:
         res.unresolved("R-C05c", f"{UI}:{f.node.lineno}", key, "the enumeration of occupied names was not found", f.qualname)
         return
@@ -337,7 +362,11 @@ def rule_collision_universe(res: Results, idx: Index) -> None:
     for g in providers:
         txt_calls = [call_name(c) or "" for c in ast.walk(g.node) if isinstance(c, ast.Call)]
         walks_nodes = any(isinstance(n, ast.For) and isinstance(n.iter, ast.Name) and n.iter.id == "graph" for n in ast.walk(g.node)) and any(isinstance(x, ast.Attribute) and x.attr == "outputs" and not (isinstance(x.value, ast.Name) and x.value.id == "graph") for x in ast.walk(g.node))
-        if any(c.endswith("create_value_mapping") for c in txt_calls) or walks_nodes:
+        cvm = [c for c in ast.walk(g.node) if isinstance(c, ast.Call) and (call_name(c) or "").endswith("create_value_mapping")]
+        top_only = any(isinstance(k.value, ast.Constant) and k.value.value is False for c in cvm for k in c.keywords if k.arg == "include_subgraphs")
+        if cvm and top_only:
+            why = f"{g.qualname}() enumerates the top graph only (include_subgraphs=False): names inside Loop / If bodies are not seen"
+        elif cvm or walks_nodes:
             ok = True
         else:
             why = f"{g.qualname}() enumerates only " + ", ".join(sorted({x.attr for x in ast.walk(g.node) if isinstance(x, ast.Attribute) and isinstance(x.value, ast.Name) and x.value.id == "graph"}))
@@ -345,3 +374,138 @@ def rule_collision_universe(res: Results, idx: Index) -> None:
         res.ok("R-C05c", f"{UI}:{providers[0].node.lineno}", key, "occupied names come from a mapping over every named value of the top graph", f.qualname)
     else:
         res.violation("R-C05c", f"{UI}:{providers[0].node.lineno}", key, f"the collision check does not see intermediate value names ({why}): a custom input/output name equal to a node output's name defines that name twice", f.qualname)
+
+
+# ---------------------------------------------------------------------------------------------- R-C05f
+CONV_FILES = ("jax2onnx/converter/conversion_api.py", "jax2onnx/converter/ir_context.py", "jax2onnx/converter/ir_builder.py", "jax2onnx/converter/function_scope.py")
+ORDER_KEEPING = {"append", "extend", "clear", "copy", "index", "count"}
+ORDER_CHANGING = {"insert", "pop", "sort", "reverse", "remove"}
+OUTPUT_ADDERS = {"add_outputs_from_vars", "bind_output", "add_graph_output_value"}
+
+
+def rule_f(res: Results, idx: Index) -> None:
+    """One graph output per result leaf, IN ORDER: the converter's list of graph outputs may only grow at its end, in the
+    order of `jpr.outvars`.  (i) every method call / store on `<…>.outputs` of a builder (or a local alias of it) in the
+    converter is order-keeping (`append`, `extend`, `clear`) — `insert` / `pop` / `sort` / `reverse` / item or slice stores
+    place a value by position; (ii) in `_LayoutAdapter.bind_outputs` outputs are added either by one call over the whole
+    `jpr.outvars` or inside a loop over `jpr.outvars` in which every path through the body adds the loop's own variable."""
+    from ..cfg import cfg_of
+    res.rule("R-C05f", "graph outputs are appended in the order of the result leaves (no positional placement, no filtered bulk add)", floor=5)
+    n = 0
+    for rel in CONV_FILES:
+        m = idx.by_rel.get(rel)
+        if m is None:
+            continue
+        for fi in m.funcs.values():
+            du = defuse(fi.node)
+            aliases = {nm for nm, ds in du.defs.items() for d in ds if d.value is not None and isinstance(d.value, ast.Attribute) and d.value.attr == "outputs" and "builder" in (dotted(d.value) or "")}
+            for c in walk_no_nested(fi.node):
+                tgt = None
+                meth = None
+                if isinstance(c, ast.Call) and isinstance(c.func, ast.Attribute):
+                    recv = c.func.value
+                    d = dotted(recv) or ""
+                    if (isinstance(recv, ast.Attribute) and recv.attr == "outputs" and ("builder" in d or d == "self.outputs" and "ir_builder" in rel)) or (isinstance(recv, ast.Name) and recv.id in aliases):
+                        tgt, meth = d, c.func.attr
+                elif isinstance(c, (ast.Assign, ast.Delete)):
+                    for t in (c.targets if isinstance(c, (ast.Assign, ast.Delete)) else []):
+                        if isinstance(t, ast.Subscript):
+                            d = dotted(t.value) or ""
+                            if (d.endswith(".outputs") and "builder" in d) or (isinstance(t.value, ast.Name) and t.value.id in aliases):
+                                tgt, meth = d, "item/slice store" if isinstance(c, ast.Assign) else "del"
+                if tgt is None or meth is None:
+                    continue
+                n += 1
+                key = f"{rel}::{fi.qualname}::outputs-list::{meth}"
+                site = f"{rel}:{c.lineno}"
+                if meth in ORDER_KEEPING:
+                    res.ok("R-C05f", site, key, f"`{tgt}.{meth}` keeps the order of the outputs", fi.qualname)
+                elif meth in ORDER_CHANGING or meth in ("item/slice store", "del"):
+                    res.violation("R-C05f", site, key, f"`{src(c, 60)}` places or removes a graph output by position: the i-th output is no longer the i-th result leaf for some selections", fi.qualname)
+                else:
+                    res.unresolved("R-C05f", site, key, f"`{tgt}.{meth}`: effect on the order not known", fi.qualname)
+    # (ii) bind_outputs
+    rel = "jax2onnx/converter/conversion_api.py"
+    f = idx.find_func(rel, "_LayoutAdapter.bind_outputs")
+    if f is None:
+        raise AnalysisError("_LayoutAdapter.bind_outputs not found")
+    g = cfg_of(f.node)
+    adders = [c for c in walk_no_nested(f.node) if isinstance(c, ast.Call) and (call_name(c) or "").split(".")[-1] in OUTPUT_ADDERS]
+    key = f"{rel}::_LayoutAdapter.bind_outputs::leaf-order"
+    bad = None
+    for c in adders:
+        loop = next((p for p in parents(c) if isinstance(p, ast.For)), None)
+        arg0 = c.args[0] if c.args else None
+        if loop is None:
+            whole = arg0 is not None and (dotted(arg0) or "").endswith(".outvars")
+            if not whole:
+                bad = (c, "adds a subset of the result leaves in one call outside the loop over `outvars`: the remaining leaves can only be placed by position afterwards")
+            continue
+        it_ok = "outvars" in src(loop.iter, 80)
+        lvars = names_in(loop.target)
+        if not it_ok:
+            bad = (c, f"the enclosing loop iterates `{src(loop.iter, 40)}`, not the result leaves in order")
+        elif arg0 is None or not (names_in(arg0) & lvars):
+            bad = (c, "does not add the loop's own leaf")
+    loops = [n_ for n_ in walk_no_nested(f.node) if isinstance(n_, ast.For) and "outvars" in src(n_.iter, 80)]
+    for lp in loops:
+        body_adders = [enclosing_stmt(c) for c in adders if any(p is lp for p in parents(c))]
+        if not body_adders:
+            continue
+        first = lp.body[0]
+        # every path through the body passes an adder: remove adder nodes, the loop header must not be reachable from the body start
+        hdr = g.nodes_of(lp)
+        reach = g.reachable(g.nodes_of(first), removed_nodes={n_ for st in body_adders for n_ in g.nodes_of(st)})
+        if set(hdr) & reach and not all(n_ in {x for st in body_adders for x in g.nodes_of(st)} for n_ in g.nodes_of(first)):
+            bad = bad or (lp, "some path through the loop body adds no output for its leaf")
+    n += 1
+    if not adders:
+        res.unresolved("R-C05f", f.site, key, "no output-adding call found", f.qualname)
+    elif bad:
+        res.violation("R-C05f", f"{rel}:{bad[0].lineno}", key, f"`{src(bad[0], 60)}` {bad[1]}", f.qualname)
+    else:
+        res.ok("R-C05f", f.site, key, f"{len(adders)} adding calls: whole-list call or one per leaf inside the loop over `outvars`", f.qualname)
+    res.analysed["output_list_sites"] = n
+
+
+# ---------------------------------------------------------------------------------------------- R-C05g
+def rule_g(res: Results, idx: Index) -> None:
+    """User-supplied output names are applied exactly: a result leaf that IS a positional input, or that repeats an
+    earlier leaf, is one ir.Value listed as input and output (or as two outputs) — renaming it renames the input too, or the
+    two requested names conflict.  Before the (value, name) pairs for the outputs are formed in
+    `_apply_custom_io_names_on_ir`, a loop over the outputs must (i) test each value against a set seeded from the graph's
+    inputs and extended with the outputs seen so far, (ii) on a hit create an Identity node and (iii) store its output both in
+    `graph.outputs[i]` and in the list the pairs are zipped from."""
+    f = idx.func(UI, "_apply_custom_io_names_on_ir")
+    res.rule("R-C05g", "result leaves that alias a graph input or an earlier leaf get an output value of their own before custom names are applied", floor=1)
+    key = f"{UI}::_apply_custom_io_names_on_ir::distinct-output-values"
+    du = defuse(f.node)
+    zips = [c for c in walk_no_nested(f.node) if isinstance(c, ast.Call) and (call_name(c) or "") == "zip" and len(c.args) == 2 and isinstance(c.args[1], ast.Name) and c.args[1].id == "output_names"]
+    if not zips:
+        res.unresolved("R-C05g", f.site, key, "the (output value, output name) pairing `zip(…, output_names)` was not found", f.qualname)
+        return
+    z = zips[0]
+    lst = z.args[0].id if isinstance(z.args[0], ast.Name) else None
+    loops = [n for n in walk_no_nested(f.node) if isinstance(n, ast.For) and lst is not None and lst in names_in(n.iter) and n.lineno < z.lineno]
+    good = None
+    why = "no loop over the outputs precedes the pairing"
+    for lp in loops:
+        tests = [n for n in ast.walk(lp) if isinstance(n, ast.If) and any(isinstance(c, ast.Compare) and isinstance(c.ops[0], ast.In) for c in ast.walk(n.test))]
+        sets = {nm for t_ in tests for c in ast.walk(t_.test) if isinstance(c, ast.Compare) and isinstance(c.ops[0], ast.In) for nm in names_in(c.comparators[0])}
+        seeded = any("inputs" in src(v, 120) for nm in sets for v in du.values(nm))
+        grows = any(isinstance(c, ast.Call) and isinstance(c.func, ast.Attribute) and c.func.attr in ("add", "update") and isinstance(c.func.value, ast.Name) and c.func.value.id in sets for c in ast.walk(lp))
+        ident = any(isinstance(x, ast.Constant) and x.value == "Identity" for t_ in tests for x in ast.walk(t_))
+        stores = [x for t_ in tests for x in ast.walk(t_) if isinstance(x, ast.Assign) and isinstance(x.targets[0], ast.Subscript)]
+        into_graph = any((dotted(s.targets[0].value) or "").endswith(".outputs") for s in stores)
+        into_list = any(isinstance(s.targets[0].value, ast.Name) and s.targets[0].value.id == lst for s in stores)
+        miss = [w for w, ok in (("a membership test", bool(tests)), ("a set seeded from the graph inputs", seeded), ("the set growing with the outputs seen", grows), ("an Identity node", ident),
+                                ("a store into graph.outputs[i]", into_graph), (f"a store into `{lst}`", into_list)) if not ok]
+        if not miss:
+            good = lp
+            break
+        why = "the loop over the outputs lacks " + ", ".join(miss)
+    if good is not None:
+        res.ok("R-C05g", f"{UI}:{good.lineno}", key, "aliasing leaves are routed through Identity before the names are paired with the outputs", f.qualname)
+    else:
+        res.violation("R-C05g", f"{UI}:{z.lineno}", key, f"`{src(z, 50)}` pairs the requested names with the graph's output values as they are ({why}): when a leaf is a positional input the name given to the "
+                      "output renames the input as well (or conflicts with its own custom name), and a repeated leaf cannot get two names", f.qualname)
